@@ -158,6 +158,23 @@ struct H {
         return gen::oneOf(reals, reals, reals, reals, floats, ints);
     }
 
+    // coverage-guided mode: byte 0: format (2 bits) | width (2 bits) | kind; byte 1: precision; 8 bytes: bit pattern
+    static bool from_fuzz(const uint8_t *d, size_t n, Case &c) {
+        pbt::FuzzBytes f(d, n);
+        uint8_t        b0 = f.sel();
+        static const int w[] = {1, 2, 4, 1};
+        c.format    = (b0 & 3) % 3;
+        c.width     = w[(b0 >> 2) & 3];
+        c.kind      = (b0 & 16) ? 1 : 0;
+        c.precision = f.sel() % (c.kind == 0 ? 41 : 20);
+        c.bits      = 0;
+        for (int i = 0; i < (c.kind == 0 ? 8 : 4); ++i) {
+            c.bits = (c.bits << 8) | f.sel();
+        }
+        c.prefix = (b0 & 32) ? "abc=" : "";
+        c.cls    = "coverage-guided";
+        return true;
+    }
     static std::string to_text(const Case &c) {
         pbt::KV kv;
         kv.put("kind", c.kind);
@@ -281,4 +298,4 @@ struct H {
 
 } // namespace
 
-int main(int argc, char **argv) { return pbt::run_main<H>(argc, argv); }
+PBT_MAIN(H)
